@@ -274,6 +274,13 @@ func (p *Population) speciate(ctx context.Context, organisms []*Organism) error 
 	return nil
 }
 
+const (
+	// the smallest average fitness which still is divided with full precision (well above the subnormal range)
+	minPreciseAverage = 0x1p-900
+	// the exact scale to lift smaller fitness values into the normal range
+	tinyFitnessScale = 0x1p+900
+)
+
 // Removes zero offspring species from this population, i.e. species which will not have any offspring organism belonging to it
 // after reproduction cycle due to its fitness stagnation
 func (p *Population) purgeZeroOffspringSpecies(generation int) {
@@ -294,9 +301,17 @@ func (p *Population) purgeZeroOffspringSpecies(generation int) {
 	}
 
 	// Now compute expected number of offspring for each individual organism
-	if overallAverage != 0 {
+	if overallAverage >= minPreciseAverage {
 		for _, o := range p.Organisms {
 			o.ExpectedOffspring = o.Fitness / overallAverage
+		}
+	} else if total != 0 {
+		// The average is too close to the smallest representable values (or has even underflown to zero) to keep its
+		// precision, and the expected offspring would not add up to the number of organisms. Scaling by a power of two is
+		// exact, thus compute the same ratio from scaled values.
+		scaledAverage := total * tinyFitnessScale / float64(totalOrganisms)
+		for _, o := range p.Organisms {
+			o.ExpectedOffspring = o.Fitness * tinyFitnessScale / scaledAverage
 		}
 	}
 
